@@ -2377,7 +2377,7 @@ def chain_ops(env, kind):
         return sa.select(sq).where(sa.literal(v.next("int")) != v.next("int"))
 
     return {"select": sel, "compound": comp, "insert": dml_ops("insert"), "update": dml_ops("update"),
-            "delete": dml_ops("delete"), "text": txt}[kind]
+            "delete": dml_ops("delete"), "text": txt, "ddl": []}[kind]
 
 
 def stmt_kind(stmt):
@@ -2393,6 +2393,8 @@ def stmt_kind(stmt):
         return "compound"
     if getattr(stmt, "is_select", False):
         return "select"
+    if getattr(stmt, "is_ddl", False) or not hasattr(stmt, "bindparams"):
+        return "ddl"  # DDL elements have no generative chain operations here
     return "text"
 
 
